@@ -54,7 +54,7 @@ THEOREMS["C08"] = [("Flurry.Props.C08", [
     "Flurry.C08.counter_no_lost_update", "Flurry.C08.absent_not_applied", "Flurry.C08.replaces_what_it_read",
     "Flurry.C08.removal_is_atomic"])]
 
-THEOREMS["C10"] = THEOREMS["C10"] + [("Flurry.Props.C10", ["Flurry.C10." + n for n in "helper_accounting bin_migrated_at_most_once all_bins_migrated_at_publication one_finisher one_publication_per_generation generations_do_not_overlap initiation_only_from_idle quiescent_after_resize resize_completes".split()])]
+THEOREMS["C10"] = THEOREMS["C10"] + [("Flurry.Props.C10", ["Flurry.C10." + n for n in "helper_accounting bin_migrated_at_most_once all_bins_migrated_at_publication one_finisher one_publication_per_generation generations_do_not_overlap initiation_only_from_idle quiescent_after_resize resize_completes no_stale_join joiner_holds_current_generation join_admits_current_generation help_refusal_matches_model".split()])]
 
 
 THEOREMS["C15"] = [("Flurry.Props.C15", ["Flurry.C15." + n for n in "handover_hb path_hb relaxed_writes_private publication_points_release reader_loads_acquire read_lock_rmw_acqrel sites_present".split()])]
@@ -247,6 +247,40 @@ def conc_props_of(f):
     return ps
 
 
+def stress_props_of(f):
+    if f.startswith("[stress-hang]"):
+        return ["C11"]
+    ps = []
+    if "own-key history" in f or "foreign read" in f or "contents differ" in f or "get(" in f:
+        ps.append("C01")
+    if "quiescent:" in f:
+        ps.append("C05")
+    if re.search(r"size_ctl|next_table|forwarding|drop:", f):
+        ps.append("C10")
+    if "panicked" in f:
+        ps += ["C01", "C10"]
+    return ps or ["C01"]
+
+
+def stress_step(R, prop):
+    """unscheduled oversubscribed stress on fresh small maps with thread-owned keys: a supporting
+    search for failing inputs (real preemption inside the resize and bin protocols), never a proof"""
+    secs = 6 if R.tier == "quick" else 120
+    rc, out = C.sh([C.HARNESS_BIN, "stress", "--seed", str(R.seed), "--secs", str(secs)], timeout=secs + 120)
+    lines = [l for l in out.splitlines() if l.startswith("{")]
+    how = "%s stress --seed %d --secs %d   (real threads: probabilistic)" % (C.HARNESS_BIN, R.seed, secs)
+    if rc != 0 or not lines:
+        R.add_failing("[crash] the unscheduled stress run died (exit %d): memory corruption or abort inside the implementation under real preemption" % rc,
+                      {"suite": "stress", "how": how})
+        return
+    rep = json.loads(lines[-1])
+    for f in rep["failures"]:
+        if prop in stress_props_of(f):
+            R.add_failing(f, {"suite": "stress", "how": how})
+    R.cov["stress"] = {k: rep[k] for k in ("rounds", "ops", "threads", "max_table", "rounds_with_resize", "rounds_with_tree")}
+    R.cov["rule"] = R.cov.get("rule", "") + " || stress: %d OS threads (4 per core) on fresh small maps for %d s, thread-owned keys: every answer on an own key is checked against the thread's own history, the final contents, len(), iteration, the structural validator and the control words at quiescence, and drop must not panic" % (rep["threads"], secs)
+
+
 def conc_step(R, prop, extra_args=None, cases=None, suite="conc", modes=("mixed",), merge=False):
     prev = dict(R.cov) if merge else None
     total = None
@@ -373,6 +407,7 @@ def check_C10(R):
     if harness_step(R):
         seq_step(R, "C10")
         conc_step(R, "C10", modes=("resize", "treeresize"), merge=True)
+        stress_step(R, "C10")
 
 
 def check_C14(R):
@@ -659,6 +694,7 @@ def check_C01(R):
     lean_step(R, "C01")
     if harness_step(R):
         conc_step(R, "C01", modes=("mixed", "tree", "resize", "treeresize"))
+        stress_step(R, "C01")
 
 
 def check_C08(R):
@@ -690,6 +726,7 @@ def check_C05(R):
     if harness_step(R):
         seq_step(R, "C05")
         conc_step(R, "C05", modes=("mixed", "resize", "tree", "clear", "treeresize"), merge=True)
+        stress_step(R, "C05")
 
 
 def check_C13(R):
@@ -749,6 +786,7 @@ def check_C11(R):
     lean_step(R, "C11")
     if harness_step(R):
         conc_step(R, "C11", modes=("mixed", "tree", "resize", "iter", "treeresize", "clear"))
+        stress_step(R, "C11")
 
 
 def check_C12(R):
